@@ -4,6 +4,8 @@ CONSTANTS
   Streams = {"t1","t2"}
   Sizes = {0,2}
   Limits = {2,3}
+  Iters = {}
+  CoverIdxN = 0
   DefaultMax = 100
   MaxAppends = 3
 CONSTRAINT CoverBound
